@@ -2,6 +2,6 @@
    driver ocaml/serLegacy_driver.ml.  ExtrOcamlBasic only. *)
 Require Import ExtrOcamlBasic.
 From Coq Require Import ZArith.
-Require Import XV.SerLegacyDefs.
+Require Import XV.SerDefs XV.SerLegacyDefs XV.SerLegacyRawDefs.
 (* Z.of_N only so that the type z exists for ocaml/conv.ml *)
-Extraction "extracted/serLegacy_model.ml" lg_document lg_this_tree lg_chk_this_tree lg_comment lg_pi lg_write_content lg_write_attr lg_write_cdata Z.of_N.
+Extraction "extracted/serLegacy_model.ml" lg_document lg_this_tree lg_chk_this_tree lg_comment lg_pi lg_write_content lg_write_attr lg_write_cdata u_serialize_raw lg_is_marker fam_of fam_other rep_all Z.of_N.
